@@ -5,7 +5,8 @@ RULE = ("every rule list of Firewall.tla's configuration lattice (every port/cod
         "whole port space 1-65535, with and without blanks, its neighbours 1-65534 / 2-65535, 0-65535, ranges that touch 1 and "
         "65535 -, each also evaluated on the port pairs of C16: ports inside, on both edges and just outside the ranges, port 0, "
         "packets without ports, tcp/udp/icmp/another protocol; one and two fields of a rule "
-        "map deviating in kind (missing/string/int/bool/null/list) or text; lists of two rules) is one TLC state with "
+        "map deviating in kind (missing/string/int/bool/null/list) or text; lists of two rules, among them pairs whose remote "
+        "prefixes are nested and whose node-side prefixes differ, in both orders) is one TLC state with "
         "Loads(cfg) and the verdict sets of Allowed(RulesOf(cfg)); each is rendered as real YAML, loaded through config.C and "
         "NewFirewallFromConfig, and the loaded Firewall is put through the C16 packets; distinct = distinct rule lists")
 ASSUMPTIONS = [
